@@ -28,6 +28,12 @@ static size_t ZSTD_freeCStream(ZSTD_CStream *c) { if (c) { toy_enc_free(&c->e); 
 static size_t ZSTD_freeDStream(ZSTD_DStream *d) { free(d); return 0; }
 static unsigned ZSTD_isError(size_t r) { return r > (size_t)-120; }
 
+static size_t toy_zstd_errcode(void)
+{
+	static unsigned n;
+	return (size_t)0 - (size_t)(1 + (n++ % 100));	/* ZSTD error codes are -1 .. -(ZSTD_error_maxCode - 1) */
+}
+
 static size_t ZSTD_compressStream2(ZSTD_CStream *c, ZSTD_outBuffer *o, ZSTD_inBuffer *i, ZSTD_EndDirective dir)
 {
 	size_t cn, pr;
@@ -35,7 +41,7 @@ static size_t ZSTD_compressStream2(ZSTD_CStream *c, ZSTD_outBuffer *o, ZSTD_inBu
 			     (unsigned char *)o->dst + o->pos, o->size - o->pos, dir == ZSTD_e_end, &cn, &pr);
 	i->pos += cn; o->pos += pr;
 	if (r == TOY_END) return 0;
-	if (r == TOY_ERR) return (size_t)-1;
+	if (r == TOY_ERR) return toy_zstd_errcode();
 	return 1;
 }
 
@@ -46,7 +52,7 @@ static size_t ZSTD_decompressStream(ZSTD_DStream *d, ZSTD_outBuffer *o, ZSTD_inB
 			     (unsigned char *)o->dst + o->pos, o->size - o->pos, 0, &cn, &pr);
 	i->pos += cn; o->pos += pr;
 	if (r == TOY_END) return 0;
-	if (r == TOY_ERR) return (size_t)-1;
+	if (r == TOY_ERR) return toy_zstd_errcode();
 	return 1;
 }
 #endif
